@@ -185,11 +185,30 @@ Build(i, v) == Entry(i, v).pre \o <<SDecl(EVar(v), Entry(i, v).e)>>
 \* `x == []` specially), in both orders, with == and !=
 LitOperands == <<EList(<<>>), EObj(<<>>), EStr(<<>>), EInt(0), ENull, EBool(TRUE), EList(<<EInt(0)>>),
                  EObj(<<Pair(EStr(KA), EInt(0))>>), EStr(<<97>>), EList(<<EList(<<>>)>>)>>
+\* sharing patterns inside both operands: children a = [1], b = [1] (a copy), c = [2], d = [2] (a copy); x is a
+\* triple over {a, c}, y a triple over {a, b, c, d}; as lists and as objects.  == depends on the contents only.
+CrossL == <<<<97>>, <<99>>>>                     \* a c
+CrossR == <<<<97>>, <<98>>, <<99>>, <<100>>>>    \* a b c d
+ChildVal(n) == IF n \in {<<97>>, <<98>>} THEN 1 ELSE 2
+Triples(S) == {<<i, j, kx>> : i \in 1 .. Len(S), j \in 1 .. Len(S), kx \in 1 .. Len(S)}
+CrossKeys == <<<<107>>, <<108>>, <<109>>>>
+CrossBuild(S, t, asobj) ==
+    IF asobj THEN EObj([i \in 1 .. 3 |-> Pair(EStr(CrossKeys[i]), EVar(S[t[i]]))])
+    ELSE EList([i \in 1 .. 3 |-> EVar(S[t[i]])])
+CrossProg(tl, tr, asobj) ==
+    <<SDecl(EVar(<<97>>), EList(<<EInt(1)>>)), SDecl(EVar(<<98>>), EList(<<EInt(1)>>)),
+      SDecl(EVar(<<99>>), EList(<<EInt(2)>>)), SDecl(EVar(<<100>>), EList(<<EInt(2)>>)),
+      SDecl(EVar(<<120>>), CrossBuild(CrossL, tl, asobj)), SDecl(EVar(<<121>>), CrossBuild(CrossR, tr, asobj)),
+      SPrint(EBin("==", EVar(<<120>>), EVar(<<121>>))), SPrint(EBin("==", EVar(<<121>>), EVar(<<120>>))),
+      SPrint(EBin("!=", EVar(<<120>>), EVar(<<121>>))),
+      SPrint(EBin("==", EList(<<EVar(<<120>>), EVar(<<121>>)>>), EList(<<EVar(<<121>>), EVar(<<120>>)>>)))>>
+CrossEqual(tl, tr) == \A i \in 1 .. 3 : ChildVal(CrossL[tl[i]]) = ChildVal(CrossR[tr[i]])
 C10Params ==
     { <<"eq", i, j>> : i \in 1 .. NEntries, j \in 1 .. NEntries }
     \cup { <<"ref", i, j>> : i \in ContainerEntries \cup {29, 32}, j \in ContainerEntries \cup {29, 30, 32, 4} }
     \cup { <<"alias", i, 0>> : i \in 1 .. NEntries }
     \cup { <<"lit", i, l * 10 + f>> : i \in 1 .. NEntries, l \in 1 .. Len(LitOperands), f \in 1 .. 4 }
+    \cup { <<"cross", <<tl, tr>>, IF asobj THEN 1 ELSE 0>> : tl \in Triples(CrossL), tr \in Triples(CrossR), asobj \in BOOLEAN }
     \cup { <<"nested", i, j>> : i \in {8, 9, 16, 18, 20, 29, 35}, j \in {8, 9, 10, 15, 18, 20, 7, 34} }
 
 C10ProgOf(p) ==
@@ -208,6 +227,7 @@ C10ProgOf(p) ==
             \o <<SPrint(CASE f = 1 -> EBin("==", EVar(A), lit) [] f = 2 -> EBin("==", lit, EVar(A))
                           [] f = 3 -> EBin("!=", EVar(A), lit) [] f = 4 -> EBin("!=", lit, EVar(A))),
                  SPrint(EVar(A))>>
+      [] p[1] = "cross" -> CrossProg(p[2][1], p[2][2], p[3] = 1)
       [] p[1] = "alias" ->
             Prelude \o Build(p[2], A) \o <<SDecl(EVar(Bv), EVar(A))>>
             \o <<SPrint(EBin("==", EVar(A), EVar(Bv))), SPrint(EBin("===", EVar(A), EVar(Bv))),
@@ -245,5 +265,12 @@ AliasLaws ==
 \* comparing leaves every value unchanged (CompareFrame)
 CompareFrameStep == (c.m = "V" /\ HasTop("binr") /\ Top.e.op \in EqOps \cup RefOps) => heap' = heap /\ scopes' = scopes
 CompareFrame == [][CompareFrameStep]_mcvars
-C10Laws == PairLaws /\ RefPairLaws /\ AliasLaws
+\* the answer is the answer for the contents, whatever is shared
+CrossLaws ==
+    (Finished /\ pi[1] = "cross") =>
+        LET eq == CrossEqual(pi[2][1], pi[2][2])
+            t == IF eq THEN T_true ELSE T_false
+            f == IF eq THEN T_false ELSE T_true IN
+        status.k = "done" /\ out = <<t, t, f, t>>
+C10Laws == PairLaws /\ RefPairLaws /\ AliasLaws /\ CrossLaws
 =============================================================================
